@@ -38,6 +38,25 @@ def lt : Num → Num → Bool
   | .nan, .ninf => false
   | .nan, .nan => false
 
+/-- Python / IEEE `a <= b` (false when either side is NaN) -/
+def leB : Num → Num → Bool
+  | .fin a b, .fin c d => decide (a * d ≤ c * b)
+  | .fin _ _, .pinf => true
+  | .fin _ _, .ninf => false
+  | .fin _ _, .nan => false
+  | .pinf, .fin _ _ => false
+  | .pinf, .pinf => true
+  | .pinf, .ninf => false
+  | .pinf, .nan => false
+  | .ninf, .fin _ _ => true
+  | .ninf, .pinf => true
+  | .ninf, .ninf => true
+  | .ninf, .nan => false
+  | .nan, .fin _ _ => false
+  | .nan, .pinf => false
+  | .nan, .ninf => false
+  | .nan, .nan => false
+
 /-- the declared meaning of a bound: `a ≤ b` as a statement about the denoted numbers (false for NaN) -/
 def le : Num → Num → Prop
   | .fin a b, .fin c d => a * d ≤ c * b
@@ -192,15 +211,15 @@ structure NumConv where
   maxVal : Option Num
   deriving Repr, DecidableEq
 
-/-- `bound is not None and x < bound` (float comparison) -/
+/-- `bound is not None and not x >= bound` (float comparison; true for NaN) -/
 def numLtOpt (x : Num) (bound : Option Num) : Bool :=
   match bound with
-  | some m => x.lt m
+  | some m => !(m.leB x)
   | Option.none => false
-/-- `bound is not None and x > bound` -/
+/-- `bound is not None and not x <= bound` -/
 def numGtOpt (x : Num) (bound : Option Num) : Bool :=
   match bound with
-  | some m => m.lt x
+  | some m => !(x.leB m)
   | Option.none => false
 
 /-- `RealConverter.validate`; `toFloat` is Python's `float(val)` (error = class name of what it raises) -/
